@@ -1,8 +1,10 @@
 package an
 
 import (
+	"go/constant"
 	"go/token"
 	"go/types"
+	"sort"
 	"strings"
 
 	"golang.org/x/tools/go/ssa"
@@ -340,16 +342,105 @@ type Search struct {
 	GoalInstr func(in ssa.Instruction) bool
 	// CutEdge: traversing this CFG edge satisfies the obligation (the edge is not followed).
 	CutEdge func(from, to *ssa.BasicBlock) bool
+
+	curEnv flagEnv // the flags known in the state whose goals are being evaluated
 }
 
-type st struct{ b, pred *ssa.BasicBlock }
+// Flag: inside a Goal callback, the value of a boolean v (a flag phi, possibly negated) when the path walked to the
+// state under evaluation fixes it.
+func (s *Search) Flag(v ssa.Value) (val, known bool) {
+	neg := false
+	for {
+		u, isU := v.(*ssa.UnOp)
+		if !isU || u.Op != token.NOT {
+			break
+		}
+		v, neg = u.X, !neg
+	}
+	if ph, ok := v.(*ssa.Phi); ok {
+		if b, has := s.curEnv[ph]; has {
+			return b != neg, true
+		}
+	}
+	return false, false
+}
+
+type st struct {
+	b, pred *ssa.BasicBlock
+	env     string // the boolean flags (phis) whose value is known on this path, canonical text
+}
+
+// flagEnv: boolean phis whose value on the path walked so far is a known constant — a flag set on one branch and
+// tested later (`ok := true; for … { if !found { ok = false } }; if !ok { return err }`). Carried along the path it
+// makes the later test's outcome known, so the search does not follow the edge the flag rules out.
+type flagEnv map[*ssa.Phi]bool
+
+func (e flagEnv) key() string {
+	if len(e) == 0 {
+		return ""
+	}
+	var ks []string
+	for ph, v := range e {
+		t := "0"
+		if v {
+			t = "1"
+		}
+		ks = append(ks, ph.Name()+"@"+itoa(ph.Block().Index)+"="+t)
+	}
+	sort.Strings(ks)
+	return strings.Join(ks, ",")
+}
+
+// step: the environment after moving from block from into block to.
+func (e flagEnv) step(from, to *ssa.BasicBlock) flagEnv {
+	idx := -1
+	for i, pb := range to.Preds {
+		if pb == from {
+			idx = i
+		}
+	}
+	out := flagEnv{}
+	for k, v := range e {
+		out[k] = v
+	}
+	if idx < 0 {
+		return out
+	}
+	for _, in := range to.Instrs {
+		ph, ok := in.(*ssa.Phi)
+		if !ok {
+			break
+		}
+		if b, isB := ph.Type().Underlying().(*types.Basic); !isB || b.Info()&types.IsBoolean == 0 {
+			continue
+		}
+		delete(out, ph)
+		switch x := ph.Edges[idx].(type) {
+		case *ssa.Const:
+			if x.Value != nil && x.Value.Kind() == constant.Bool {
+				out[ph] = constant.BoolVal(x.Value)
+			}
+		case *ssa.Phi:
+			if v, known := e[x]; known {
+				out[ph] = v
+			}
+		}
+	}
+	return out
+}
 
 // Run searches from (start block, instruction index startIdx, arrival pred) and returns a
 // witness (list of block positions) for the first violation, or nil.
 func (s *Search) Run(start *ssa.BasicBlock, startIdx int, pred *ssa.BasicBlock) []string {
 	seen := map[st]bool{}
 	parent := map[st]st{}
-	s0 := st{start, pred}
+	envs := map[st]flagEnv{}
+	e0 := flagEnv{}
+	if pred != nil {
+		e0 = e0.step(pred, start)
+	}
+	s0 := st{start, pred, e0.key()}
+	envs[s0] = e0
 	q := []st{s0}
 	seen[s0] = true
 	first := true
@@ -357,6 +448,7 @@ func (s *Search) Run(start *ssa.BasicBlock, startIdx int, pred *ssa.BasicBlock) 
 		cur := q[0]
 		q = q[1:]
 		idx := 0
+		s.curEnv = envs[cur]
 		if first {
 			idx = startIdx
 			first = false
@@ -382,19 +474,48 @@ func (s *Search) Run(start *ssa.BasicBlock, startIdx int, pred *ssa.BasicBlock) 
 		if cut {
 			continue
 		}
-		for _, nx := range s.feasible(cur) {
+		env := envs[cur]
+		for _, nx := range s.feasibleEnv(cur, env) {
 			if s.CutEdge != nil && s.CutEdge(cur.b, nx) {
 				continue
 			}
-			n := st{nx, cur.b}
+			ne := env.step(cur.b, nx)
+			n := st{nx, cur.b, ne.key()}
 			if !seen[n] {
 				seen[n] = true
 				parent[n] = cur
+				envs[n] = ne
 				q = append(q, n)
 			}
 		}
 	}
 	return nil
+}
+
+// feasibleEnv: feasible successors, also pruning the edge a known flag rules out.
+func (s *Search) feasibleEnv(cur st, env flagEnv) []*ssa.BasicBlock {
+	b := cur.b
+	if len(env) > 0 && len(b.Instrs) > 0 && len(b.Succs) == 2 {
+		if ifi, ok := b.Instrs[len(b.Instrs)-1].(*ssa.If); ok {
+			cond, neg := ifi.Cond, false
+			for {
+				u, isU := cond.(*ssa.UnOp)
+				if !isU || u.Op != token.NOT {
+					break
+				}
+				cond, neg = u.X, !neg
+			}
+			if ph, isPhi := cond.(*ssa.Phi); isPhi {
+				if v, known := env[ph]; known {
+					if v != neg {
+						return b.Succs[:1]
+					}
+					return b.Succs[1:]
+				}
+			}
+		}
+	}
+	return s.feasible(cur)
 }
 
 // feasible successors of state cur, pruning If edges whose nil-test outcome is known.
